@@ -155,3 +155,99 @@ theorem FileNameWithInfo.decode_encode' (f : FileNameWithInfo) (h : f.WF) :
     simp
 
 end Mobius
+
+namespace Mobius
+
+def ForkInfo.WF (f : ForkInfo) : Prop := f.fork.length = 4 ∧ f.offset < 4294967296
+
+theorem ForkInfo.encode_length (f : ForkInfo) (h : f.WF) : f.encode.length = 16 := by
+  simp [ForkInfo.encode, h.1]
+
+def forksEncode (fs : List ForkInfo) : Bytes := (fs.map ForkInfo.encode).flatten
+
+theorem forksEncode_length (fs : List ForkInfo) (h : ∀ f ∈ fs, f.WF) : (forksEncode fs).length = 16 * fs.length := by
+  induction fs with
+  | nil => rfl
+  | cons f fs ih =>
+    have := ForkInfo.encode_length f (h f (by simp))
+    simp only [forksEncode, List.map_cons, List.flatten_cons, List.length_append, List.length_cons] at ih ⊢
+    rw [this, ih (fun g hg => h g (by simp [hg]))]; omega
+
+theorem resumeDecodeForks_succ (n i : Nat) (b : Bytes) :
+    resumeDecodeForks (n + 1) i b =
+      (let start := 42 + i * 16
+       if b.length < start + 16 then .panic
+       else
+         match resumeDecodeForks n (i + 1) b with
+         | .ok fs => .ok (⟨(b.drop start).take 4, rd32 (b.drop (start + 4))⟩ :: fs)
+         | r => r) := rfl
+
+/-- Decoding the fork list: `hdr` is any 42-byte header, `pre` the forks already passed. -/
+theorem resumeDecodeForks_encode (hdr : Bytes) (hh : hdr.length = 42) (pre rest : List ForkInfo)
+    (hp : ∀ f ∈ pre, f.WF) (hr : ∀ f ∈ rest, f.WF) :
+    resumeDecodeForks rest.length pre.length (hdr ++ forksEncode pre ++ forksEncode rest) = .ok rest := by
+  induction rest generalizing pre with
+  | nil => simp [resumeDecodeForks]
+  | cons f rest ih =>
+    have hf := hr f (by simp)
+    have hfl := ForkInfo.encode_length f hf
+    have hpl := forksEncode_length pre hp
+    have hrl := forksEncode_length rest (fun g hg => hr g (by simp [hg]))
+    rw [List.length_cons, resumeDecodeForks_succ]
+    have hcons : forksEncode (f :: rest) = f.encode ++ forksEncode rest := by simp [forksEncode]
+    have hlen : (hdr ++ forksEncode pre ++ forksEncode (f :: rest)).length = 42 + 16 * pre.length + 16 + 16 * rest.length := by
+      rw [hcons]; simp [hh, hpl, hfl, hrl]; omega
+    dsimp only
+    have c1 : ¬ ((hdr ++ forksEncode pre ++ forksEncode (f :: rest)).length < 42 + pre.length * 16 + 16) := by
+      rw [hlen]; omega
+    simp only [c1, if_false]
+    -- the recursive call sees `pre ++ [f]` as passed
+    have hpre' : hdr ++ forksEncode pre ++ forksEncode (f :: rest) = hdr ++ forksEncode (pre ++ [f]) ++ forksEncode rest := by
+      simp [forksEncode, List.append_assoc]
+    have ih' := ih (pre ++ [f]) (by
+      intro g hg
+      rcases List.mem_append.mp hg with h | h
+      · exact hp g h
+      · simp at h; subst h; exact hf) (fun g hg => hr g (by simp [hg]))
+    rw [List.length_append, List.length_singleton] at ih'
+    rw [hpre', ih']
+    simp only
+    -- the fork read at this position is `f`
+    have hdrop : (hdr ++ forksEncode (pre ++ [f]) ++ forksEncode rest).drop (42 + pre.length * 16)
+        = f.encode ++ forksEncode rest := by
+      rw [← hpre', hcons]
+      have : (hdr ++ forksEncode pre).length = 42 + pre.length * 16 := by simp [hh, hpl]; omega
+      exact List.drop_left' this
+    have hdrop4 : (hdr ++ forksEncode (pre ++ [f]) ++ forksEncode rest).drop (42 + pre.length * 16 + 4)
+        = be32 f.offset ++ ([0, 0, 0, 0, 0, 0, 0, 0] ++ forksEncode rest) := by
+      rw [← List.drop_drop, hdrop]
+      simp only [ForkInfo.encode, List.append_assoc]
+      exact List.drop_left' hf.1
+    rw [hdrop, hdrop4, rd32_be32_append]
+    have : f.offset % 4294967296 = f.offset := by have := hf.2; omega
+    rw [this]
+    have htake : (f.encode ++ forksEncode rest).take 4 = f.fork := by
+      simp only [ForkInfo.encode, List.append_assoc]
+      exact List.take_left' hf.1
+    rw [htake]
+
+/-- `FileResumeData.UnmarshalBinary` on `BinaryMarshal` output yields the fork list. -/
+theorem resumeDecode_encode (forks : List ForkInfo) (h : ∀ f ∈ forks, f.WF) (hn : forks.length < 256) :
+    resumeDecode (resumeEncode forks) = .ok forks := by
+  unfold resumeDecode resumeEncode
+  have hfl := forksEncode_length forks h
+  have hhdr : ([0x52, 0x46, 0x4C, 0x54] ++ be16 1 ++ List.replicate 34 0 ++ [0, b8 forks.length] : Bytes).length = 42 := by
+    simp
+  have hlen : ¬ (([0x52, 0x46, 0x4C, 0x54] ++ be16 1 ++ List.replicate 34 0 ++ [0, b8 forks.length] ++
+      (forks.map ForkInfo.encode).flatten : Bytes).length < 42) := by
+    rw [List.length_append, hhdr]; omega
+  simp only [hlen, if_false]
+  have h41 : ((([0x52, 0x46, 0x4C, 0x54] ++ be16 1 ++ List.replicate 34 0 ++ [0, b8 forks.length] ++
+      (forks.map ForkInfo.encode).flatten : Bytes).drop 41).headD 0).toNat = forks.length := by
+    simp [be16]; omega
+  rw [h41]
+  have := resumeDecodeForks_encode ([0x52, 0x46, 0x4C, 0x54] ++ be16 1 ++ List.replicate 34 0 ++ [0, b8 forks.length])
+    hhdr [] forks (by simp) h
+  simpa [forksEncode] using this
+
+end Mobius
